@@ -599,7 +599,7 @@ class Facts:
                 self.by_crate[name].append(fn)
             self.hir[name] = {h["id"]: h for h in d["hir"]}
 
-    def find(self, crate, suffix, exact=False, allow_many=False):
+    def find(self, crate, suffix, exact=False, allow_many=False, inline=False, keep=()):
         """Find MIR bodies in `crate` whose path ends with `suffix` (closures excluded
         unless the suffix names one)."""
         res = []
@@ -617,14 +617,104 @@ class Facts:
         if len(res) != 1:
             raise AnchorLost("expected exactly one function %s in %s, found %d%s" % (
                 suffix, crate, len(res), "" if not res else " (" + ", ".join(f.path for f in res[:4]) + ")"))
-        return res[0]
+        return self.inlined(res[0], keep=tuple(keep)) if inline else res[0]
 
     def closures_of(self, fn):
         out = []
+        ids = {fn.id} | set(getattr(fn, "inlined_ids", ()))
         for g in self.by_crate[fn.crate]:
             r = g.raw.get("root")
-            if r and r["id"] == fn.id:
+            if r and r["id"] in ids:
                 out.append(g)
+        return out
+
+    # --- private helpers are the code of the function that calls them --------------------------------------------------
+    def inlined(self, fn, depth=3, _stack=(), keep=()):
+        """`fn` with the bodies of the private helpers of its crate spliced in at their call sites (MIR level): a rule that
+        looks for something *in* a function keeps finding it after `extract function` has moved it into a private helper.
+        The helpers themselves stay in the tables as functions of their own (inventories see every site exactly once)."""
+        cache = self.__dict__.setdefault("_inl", {})
+        ck = (fn.id, keep)
+        if ck in cache and not _stack:
+            return cache[ck]
+        if "{closure" in fn.path:
+            return fn
+        raw = fn.raw
+        sites = []
+        for bb, b in enumerate(raw["blocks"]):
+            t = b["term"]
+            if t["k"] != "call" or "callee" not in t or b["cleanup"]:
+                continue
+            c = t["callee"]
+            if not c.get("local") or c.get("crate", fn.crate) != fn.crate:
+                continue
+            g = self.fns.get(c["id"])
+            if g is None or g.id == fn.id or g.id in _stack or depth <= 0:
+                continue
+            if g.raw.get("public") or g.raw.get("impl_trait") or "{closure" in g.path or g.crate != fn.crate:
+                continue
+            if len(g.raw["blocks"]) > 400 or len(t["args"]) != g.raw["arg_count"] or g.path.endswith(keep):
+                continue   # `keep`: helpers the rule itself names stay calls
+            sites.append((bb, g))
+        if not sites:
+            if not _stack:
+                cache[ck] = fn
+            return fn
+        new = dict(raw)
+        new["locals"] = list(raw["locals"])
+        new["vars"] = list(raw.get("vars", []))
+        new["blocks"] = [dict(b) for b in raw["blocks"]]
+        ids = []
+        for bb, g in sites:
+            gi = self.inlined(g, depth - 1, _stack + (fn.id,), keep)
+            ids.append(g.id)
+            ids += list(getattr(gi, "inlined_ids", ()))
+            loff, boff = len(new["locals"]), len(new["blocks"])
+            call = new["blocks"][bb]["term"]
+            cont = boff + len(gi.raw["blocks"])
+
+            def remap(x):
+                if isinstance(x, dict):
+                    if "l" in x and "p" in x and isinstance(x["l"], int):
+                        y = dict(x)
+                        y["l"] = x["l"] + loff
+                        y["p"] = [remap(q) for q in x["p"]]
+                        return y
+                    return {k: remap(v) for k, v in x.items()}
+                if isinstance(x, list):
+                    return [remap(v) for v in x]
+                return x
+            new["locals"] += list(gi.raw["locals"])
+            for v in gi.raw.get("vars", []):
+                new["vars"].append(remap(v))
+            for b in gi.raw["blocks"]:
+                nb = {"cleanup": b["cleanup"], "stmts": [remap(st) for st in b["stmts"]]}
+                t = remap(b["term"])
+                for key in ("target", "unwind", "otherwise"):
+                    if isinstance(t.get(key), int):
+                        t[key] = t[key] + boff
+                if "targets" in t:
+                    t["targets"] = [[v, tb + boff] for v, tb in t["targets"]]
+                if t["k"] == "return":
+                    t = {"k": "goto", "target": cont, "loc": t["loc"]}
+                elif t["k"] == "resume" and isinstance(call.get("unwind"), int):
+                    t = {"k": "goto", "target": call["unwind"], "loc": t["loc"]}
+                nb["term"] = t
+                new["blocks"].append(nb)
+            # continuation: the call's destination receives the helper's return slot
+            ret = {"l": loff, "p": [], "ty": gi.raw["locals"][0]}
+            kt = {"k": "goto", "target": call["target"], "loc": call["loc"]} if isinstance(call.get("target"), int) else {"k": "unreachable", "loc": call["loc"]}
+            new["blocks"].append({"cleanup": False, "stmts": [{"k": "assign", "place": call["dest"], "rv": {"k": "use", "a": {"move": ret}}, "loc": call["loc"]}], "term": kt})
+            # the call site: parameters receive the arguments, then the helper's entry block
+            blk = new["blocks"][bb]
+            blk["stmts"] = list(blk["stmts"]) + [
+                {"k": "assign", "place": {"l": loff + i + 1, "p": [], "ty": gi.raw["locals"][i + 1]}, "rv": {"k": "use", "a": a}, "loc": call["loc"]}
+                for i, a in enumerate(call["args"])]
+            blk["term"] = {"k": "goto", "target": boff, "loc": call["loc"]}
+        out = Fn(new, fn.crate)
+        out.inlined_ids = tuple(ids)
+        if not _stack:
+            cache[ck] = out
         return out
 
     def hir_of(self, fn):
